@@ -364,10 +364,10 @@ void XMLGrammarPoolImpl::deserializeGrammars(BinInputStream* const binIn)
         //
         if (StorerLevel != (unsigned int)XERCES_GRAMMAR_SERIALIZATION_LEVEL)
         {
-            XMLCh     StorerLevelChar[5];
-            XMLCh     LoaderLevelChar[5];
-            XMLString::binToText(StorerLevel,                          StorerLevelChar,   4, 10, memMgr);
-            XMLString::binToText(XERCES_GRAMMAR_SERIALIZATION_LEVEL,   LoaderLevelChar,   4, 10, memMgr);
+            XMLCh     StorerLevelChar[16];
+            XMLCh     LoaderLevelChar[16];
+            XMLString::binToText(StorerLevel,                          StorerLevelChar,   15, 10, memMgr);
+            XMLString::binToText(XERCES_GRAMMAR_SERIALIZATION_LEVEL,   LoaderLevelChar,   15, 10, memMgr);
 
             ThrowXMLwithMemMgr2(XSerializationException
                     , XMLExcepts::XSer_Storer_Loader_Mismatch
